@@ -477,6 +477,8 @@ def _pure_calls():
             plot.traj_rpy(axarr, est)
             fig2 = plt.figure()
             plot.speeds(fig2.gca(), ref)
+            plot.speeds(fig2.gca(), ref, start_timestamp=float(ref.timestamps[0]) + 0.5)
+            plot.traj_rpy(axarr, ref, start_timestamp=float(ref.timestamps[0]) + 0.5)
             plot.error_array(fig2.gca(), err, x_array=ref.timestamps, statistics={"mean": 1.0, "std": 0.1}, cumulative=True)
             plt.close("all")
         return [ref, est, err], run
